@@ -448,7 +448,10 @@ fn hook_impl(site: &'static str, may_crash: bool) {
         })
     });
     let Some((sim, id, crash)) = info else { return };
-    if crash {
+    // never kill a caller that is already unwinding (a destructor of the crate reached a
+    // scheduling point while a panic - the crate's own or an injected one - is in flight):
+    // a second panic there would abort the process instead of ending one operation
+    if crash && !std::thread::panicking() {
         sim.note_crash(site);
         // kills this one caller mid-operation, exactly as a panicking user callback would
         std::panic::panic_any(crate::SimCrash("crash_at_point"));
@@ -491,6 +494,10 @@ pub fn sync_hook(site: &'static str, blocked: bool) -> bool {
     match sim.yield_blocked(id, site) {
         Ok(y) => y,
         Err(()) => {
+            if std::thread::panicking() {
+                // cannot unwind twice; let the caller block for real (the watchdog ends the episode)
+                return false;
+            }
             // deadlock: kill this operation so that the episode can end; the episode reports I6
             std::panic::panic_any(crate::SimCrash("deadlock"));
         }
